@@ -184,6 +184,28 @@ def in_grammar(n):
     return False
 
 
+def offender(n):
+    """Name of the first construct (breadth-first) that puts a tree outside the grammar."""
+    for m in ast.walk(n):
+        t = type(m)
+        if t is ast.Constant:
+            if type(m.value) not in (int, float, bool):
+                return "Constant:" + type(m.value).__name__
+        elif t is ast.Name:
+            if m.id != "x":
+                return "Name:other"
+        elif isinstance(m, (ast.operator, ast.unaryop, ast.cmpop)):
+            if t not in G_BIN + G_UN + G_CMP:
+                return t.__name__
+        elif isinstance(m, ast.expr_context):
+            if t is not ast.Load:
+                return t.__name__
+        elif t not in (ast.Tuple, ast.List, ast.UnaryOp, ast.BinOp, ast.BoolOp, ast.Compare,
+                       ast.Subscript, ast.Slice, ast.And, ast.Or):
+            return t.__name__
+    return "?"
+
+
 def has_slice_in_tuple(n):
     for m in ast.walk(n):
         if isinstance(m, ast.Subscript) and isinstance(m.slice, ast.Tuple) and any(
